@@ -134,3 +134,12 @@ chk('C17', 'fault_enumeration',
     'finishes is replayed on the unpatched converter.',
     'any exception escaping main.conversion counts as "the run ends with an error"; the wording of the message is not checked; ARB counts not enumerated',
     'fault enumeration with symbolic execution of the real pipeline (solver-decided value class for m)', 'DESIGN.md 4/C17')
+
+chk('C14', 'translation_validation',
+    '(a) decks of the C01/C05/C12 families are respelled (letter case, blanks and tabs, continuation by five blanks or trailing ampersand, comment '
+    'lines inside/between cards, in-line $ comments, message block, number spellings) and go through the real pipeline under symbolic execution; '
+    'z3 proves (point symbolic) that the written output satisfies the reference of the ORIGINAL model, i.e. the respelling changed nothing. '
+    '(b) expand_data_card: nR/nM/nI/nJ shorthand with symbolic numbers equals its expansion (rational-function identity). (c) CrossHair lemmas '
+    '(symbolic strings <= 6 characters) on expand_tabs, is_continuation, the comment-line pattern and Card.content.',
+    TV_NOTE + '; respelling rules limited to vt/respell.py; CrossHair lemmas not confirmed within their time budget are reported INCONCLUSIVE; known finding F17 '
+    '(Fortran numerals without exponent letter rejected outside densities)', TV_TECH + ' + CrossHair (symbolic strings) for line kernels', 'DESIGN.md 4/C14')
